@@ -2109,7 +2109,7 @@ pub fn contract_pipeline_tagging_default_of_the_defining_module<C: Ctx>(cx: &mut
         const TAGS: [&str; 3] = ["AUTOMATIC", "IMPLICIT", "EXPLICIT"];
         let a = cx.choose(3);
         let b = cx.choose(3);
-        let src = format!("ModA DEFINITIONS {} TAGS ::= BEGIN EXPORTS ALL; Base ::= SEQUENCE {{ a [0] INTEGER, b [1] BOOLEAN }} END\nModB DEFINITIONS {} TAGS ::= BEGIN IMPORTS Base FROM ModA; Ext ::= SEQUENCE {{ COMPONENTS OF Base, c [2] NULL }} Own ::= SEQUENCE {{ d [3] NULL }} END", TAGS[a], TAGS[b]);
+        let src = format!("ModA DEFINITIONS {} TAGS ::= BEGIN EXPORTS ALL; Base ::= SEQUENCE {{ a [0] INTEGER, b [1] BOOLEAN }} END\nModB DEFINITIONS {} TAGS ::= BEGIN IMPORTS Base FROM ModA; Ext ::= SEQUENCE {{ COMPONENTS OF Base, c [2] NULL }} Plain ::= SEQUENCE {{ COMPONENTS OF Base, e NULL }} Own ::= SEQUENCE {{ d [3] NULL }} END", TAGS[a], TAGS[b]);
         cx.describe(|| src.clone());
         let out = crate::Compiler::<crate::generator::rasn::Rasn, _>::new().add_asn_literal(&src).compile_to_string();
         let Ok(res) = out else { vob!(cx, "C03.pipeline.compiles", false); return; };
@@ -2120,6 +2120,9 @@ pub fn contract_pipeline_tagging_default_of_the_defining_module<C: Ctx>(cx: &mut
         let has = |item: &Option<(String, Vec<String>)>, field: &str, want: &str| item.as_ref().map_or(false, |(_, fs)| fs.iter().any(|f| f.contains(&format!("pub {field} :")) && f.contains(want) && (want.contains("explicit") || !f.contains("explicit"))));
         vob!(cx, "C03.pipeline.tag_resolved_with_the_default_of_its_own_module", has(&base, "a", &exp(a == 2, 0)) && has(&own, "d", &exp(b == 2, 3)) && has(&ext, "c", &exp(b == 2, 2)));
         vob!(cx, "C03.pipeline.copied_component_keeps_the_mode_of_the_module_it_was_written_in", has(&ext, "a", &exp(a == 2, 0)) && has(&ext, "b", &exp(a == 2, 1)));
+        // ... also when the including type writes no tag of its own
+        let plain = item_of(&g, "Plain");
+        vob!(cx, "C03.pipeline.copied_component_keeps_its_tag_in_a_type_without_own_tags", has(&plain, "a", &exp(a == 2, 0)) && has(&plain, "b", &exp(a == 2, 1)));
     }
     #[cfg(kani)]
     { let _ = cx; }
@@ -2429,7 +2432,7 @@ pub fn contract_parameterized_components<C: Ctx>(cx: &mut C) {
         let (actual, rust) = [("INTEGER", "Integer"), ("BOOLEAN", "bool"), ("Other", "Other")][cx.choose(3)];
         let set = cx.any_bool();
         let kw = if set { "SET" } else { "SEQUENCE" };
-        let src = format!("M DEFINITIONS AUTOMATIC TAGS ::= BEGIN Other ::= NULL Pair {{T}} ::= {kw} {{ first T, opt T OPTIONAL, list SEQUENCE OF T, bag SET OF T, alt CHOICE {{ one T, many SET OF T, more SEQUENCE OF T }} }} Inst ::= Pair {{ {actual} }} Wrap {{T}} ::= SEQUENCE {{ w T }} Holder ::= SEQUENCE {{ list SEQUENCE OF SEQUENCE {{ item Wrap {{ {actual} }}, n INTEGER }} }} Top ::= SET OF SEQUENCE {{ item Wrap {{ {actual} }} }} END");
+        let src = format!("M DEFINITIONS AUTOMATIC TAGS ::= BEGIN Other ::= NULL Pair {{T}} ::= {kw} {{ first T, opt T OPTIONAL, list SEQUENCE OF T, bag SET OF T, alt CHOICE {{ one T, many SET OF T, more SEQUENCE OF T }} }} Inst ::= Pair {{ {actual} }} T ::= OCTET STRING upper INTEGER ::= 10 Bounded {{ INTEGER: upper }} ::= INTEGER (0..upper) Wide ::= Bounded {{ 300 }} Color ::= ENUMERATED {{ red(1), green(2) }} WrapE {{ Color }} ::= SEQUENCE {{ c Color }} Impl ::= WrapE {{ ENUMERATED {{ blue(7), pink, ..., teal, grey(3) }} }} Wrap {{T}} ::= SEQUENCE {{ w T }} Holder ::= SEQUENCE {{ list SEQUENCE OF SEQUENCE {{ item Wrap {{ {actual} }}, n INTEGER }} }} Top ::= SET OF SEQUENCE {{ item Wrap {{ {actual} }} }} END");
         cx.describe(|| src.clone());
         let out = crate::Compiler::<crate::generator::rasn::Rasn, _>::new().add_asn_literal(&src).compile_to_string();
         let Ok(res) = out else { vob!(cx, "C02.parameterized.compiles", false); return; };
@@ -2442,6 +2445,11 @@ pub fn contract_parameterized_components<C: Ctx>(cx: &mut C) {
         // a parameterized reference inside a constructed ELEMENT type of a collection is instantiated as well: no field may
         // name the uninstantiated template `Wrap`
         vob!(cx, "C02.parameterized.reference_inside_a_collection_element_is_instantiated", !res.generated.contains(": Wrap ,") && !res.generated.contains(": Wrap }") && res.generated.contains("pub item :"));
+        // a module-level `T` / `upper` of the same name as a dummy reference does not capture the parameter
+        vob!(cx, "C02.parameterized.actual_parameter_wins_over_a_same_named_definition", res.generated.contains("pub struct Wide (pub u16)") && res.generated.contains("value (\"0..=300\")"));
+        vob!(cx, "C06.parameterized.width_is_chosen_from_the_actual_parameter", res.generated.contains("pub struct Wide (pub u16)"));
+        let enum_items: Vec<String> = item_of(&res.generated, "ImplC").map(|(_, vs)| vs.iter().map(|v| { let d = match v.rfind(']') { Some(p) => v[p + 1..].trim(), None => v.trim() }; d.replace(' ', "") }).collect()).unwrap_or_default();
+        vob!(cx, "C14.parameterized.enumerated_passed_as_a_parameter_keeps_its_own_enumerals", enum_items == ["blue=7", "pink=0", "teal=1", "grey=3"]);
         vob!(cx, "C02.parameterized.no_dummy_parameter_survives", !res.generated.contains("< T >") && !res.generated.contains("(T)") && !res.generated.contains(": T ,"));
     }
     #[cfg(kani)]
@@ -2662,7 +2670,8 @@ pub fn contract_pipeline_enumerated<C: Ctx>(cx: &mut C, max_root: usize, max_add
         vob!(cx, "C14.pipeline.numbers_are_those_of_x680_clause_20", got.iter().map(|g| g.1.clone()).collect::<Vec<_>>() == numbers.iter().map(|n| n.to_string()).collect::<Vec<_>>());
         let mut sorted = numbers.clone(); sorted.sort(); sorted.dedup();
         vob!(cx, "C14.pipeline.numbers_are_distinct", sorted.len() == numbers.len() && { let mut g: Vec<&String> = got.iter().map(|g| &g.1).collect(); g.sort(); g.dedup(); g.len() == got.len() });
-        vob!(cx, "C05.pipeline_enumerated.additions_exactly_after_the_marker", got.iter().enumerate().all(|(i, g)| g.2 == (i >= n_root)));
+        // (by identity: exactly the items written after the marker carry the mark, wherever they end up)
+        vob!(cx, "C05.pipeline_enumerated.additions_exactly_after_the_marker", got.len() == n_root + n_add && got.iter().all(|g| g.2 == g.0.starts_with('x')));
         vob!(cx, "C05.pipeline_enumerated.extensible_iff_marker", attrs.contains("non_exhaustive") == marker);
     }
     #[cfg(kani)]
@@ -2704,7 +2713,9 @@ pub fn contract_pipeline_extensibility<C: Ctx>(cx: &mut C) {
                 k => { items.push(format!("[[ {}{}, {} ]]", if *k == 3 { format!("{}: ", i + 2) } else { String::new() }, comp(&format!("g{i}a")), comp(&format!("g{i}b")))); expected.push((format!("ext_group_g{i}a"), true, vec![format!("g{i}a"), format!("g{i}b")])); }
             }
         }
-        let ty = format!("{} {{ {} }}", ["SEQUENCE", "SET", "CHOICE"][kind], items.join(", "));
+        // a comma after the last addition (X.680 allows none, the compiler accepts it: it must not change the result)
+        let trailing_comma = marker && n_add > 0 && cx.any_bool();
+        let ty = format!("{} {{ {}{} }}", ["SEQUENCE", "SET", "CHOICE"][kind], items.join(", "), if trailing_comma { "," } else { "" });
         let body = if nested { format!("T ::= SEQUENCE {{ w {ty} }}") } else { format!("T ::= {ty}") };
         cx.describe(|| format!("{}{body}", if implied { "EXTENSIBILITY IMPLIED: " } else { "" }));
         let src = format!("M DEFINITIONS AUTOMATIC TAGS {}::= BEGIN Ref ::= NULL {body} END", if implied { "EXTENSIBILITY IMPLIED " } else { "" });
@@ -2832,11 +2843,11 @@ pub fn contract_pipeline_type_shapes<C: Ctx>(cx: &mut C, max_n: usize) {
         let nested = cx.any_bool();
         let n = 1 + cx.choose(max_n);
         // (source, Rust type with `{}` for the hoisted name, hoisted item's members)
-        let types: [(&str, &str, &[&str]); 17] = [
+        let types: [(&str, &str, &[&str]); 19] = [
             ("BOOLEAN", "bool", &[]), ("INTEGER", "Integer", &[]), ("OCTET STRING", "OctetString", &[]), ("Ref", "Ref", &[]),
             ("SEQUENCE OF BOOLEAN", "SequenceOf < bool >", &[]), ("SET OF Ref", "SetOf < Ref >", &[]),
             ("NULL", "()", &[]), ("UTF8String", "Utf8String", &[]), ("BIT STRING", "BitString", &[]), ("OBJECT IDENTIFIER", "ObjectIdentifier", &[]),
-            ("INTEGER (0..255)", "u8", &[]), ("IA5String (SIZE(1..4))", "Ia5String", &[]), ("SEQUENCE OF Ref", "SequenceOf < Ref >", &[]), ("SET OF BOOLEAN", "SetOf < bool >", &[]),
+            ("INTEGER (0..255)", "u8", &[]), ("INTEGER (-10..10, ...)", "Integer", &[]), ("INTEGER (-10..10)", "i8", &[]), ("IA5String (SIZE(1..4))", "Ia5String", &[]), ("SEQUENCE OF Ref", "SequenceOf < Ref >", &[]), ("SET OF BOOLEAN", "SetOf < bool >", &[]),
             ("SEQUENCE { a BOOLEAN, b NULL OPTIONAL }", "{}", &["pub a : bool", "pub b : Option < () >"]),
             ("CHOICE { a BOOLEAN, b NULL }", "{}", &["a (bool)", "b (())"]),
             ("ENUMERATED { x, y }", "{}", &["x = 0", "y = 1"]),
@@ -2845,7 +2856,7 @@ pub fn contract_pipeline_type_shapes<C: Ctx>(cx: &mut C, max_n: usize) {
         let mut want: Vec<(String, String, usize, usize)> = vec![]; // field name, rust type, type index, optionality
         let holder = if nested { "TW" } else { "T" };
         for i in 0..n {
-            let ti = cx.choose(17);
+            let ti = cx.choose(19);
             let opt = if kind == 2 { 0 } else { cx.choose(3) };
             if !cx.assume(opt != 2 || ti < 2) { return; }
             let (src, rust, _) = types[ti];
@@ -3273,8 +3284,15 @@ pub fn contract_value_rendering<C: Ctx>(cx: &mut C) {
 pub fn contract_pipeline_value_assignments<C: Ctx>(cx: &mut C) {
     #[cfg(not(kani))]
     {
-        let kind = cx.choose(16);
+        let kind = cx.choose(17);
         let (decl, want): (String, String) = match kind {
+            // references to OCTET STRING / character string values, from a name that sorts before or after the referenced one, and as DEFAULT
+            16 => { let (ty, val, expr) = [("OCTET STRING", "'AB'H", "from (& [171])"), ("IA5String", "\"abc\"", "Ia5String :: try_from (\"abc\") . unwrap ()"), ("UTF8String", "\"abc\"", "String :: from (\"abc\")"), ("BIT STRING", "'101'B", "[true , false , true] . into_iter () . collect ()")][cx.choose(4)];
+                    let form = cx.choose(3);
+                    (match form { 0 => format!("m-val {ty} ::= {val} a-ref {ty} ::= m-val"), 1 => format!("m-val {ty} ::= {val} z-ref {ty} ::= m-val"), _ => format!("m-val {ty} ::= {val} Sq ::= SEQUENCE {{ f {ty} DEFAULT m-val }}") },
+                     match form { 0 => format!("pub static A_REF : LazyLock < @T > = LazyLock :: new (|| @P{expr}"), 1 => format!("pub static Z_REF : LazyLock < @T > = LazyLock :: new (|| @P{expr}"), _ => format!("fn sq_f_default () -> @T {{ @P{expr} }}") }
+                        .replace("@T", match ty { "OCTET STRING" => "OctetString", "IA5String" => "Ia5String", "UTF8String" => "Utf8String", _ => "BitString" })
+                        .replace("@P", if ty == "OCTET STRING" { "< OctetString as From < & 'static [u8] >> :: " } else { "" })) }
             // a value assignment whose value is a reference to another value assignment
             15 => { let (ty, rust, n) = [("INTEGER", "", 5i128), ("INTEGER (0..255)", "u8", 200), ("INTEGER (-128..127)", "i8", -7)][cx.choose(3)];
                     (format!("a {ty} ::= {n} v {ty} ::= a"), if rust.is_empty() { format!("pub static V : LazyLock < Integer > = LazyLock :: new (|| Integer :: from ({n}i128))") } else { format!("pub const V : {rust} = {} ;", if n < 0 { format!("- {}", -n) } else { n.to_string() }) }) }
